@@ -5,12 +5,14 @@ import json
 import os
 
 rows = []
+ndet = 0
 for f in sorted(glob.glob("/verif/seeded/*/meta.json")):
     m = json.load(open(f))
     d = os.path.basename(os.path.dirname(f))
     notes = (m.get("needs_to_manifest") or "").strip().splitlines()
     first = next((l.strip("# ").strip() for l in notes if l.strip()), "")
-    det = ", ".join(m.get("detected_by") or []) or "— (missed)"
+    det = ", ".join(m.get("detected_by") or []) or "— (not detected)"
+    ndet += bool(m.get("detected_by"))
     rows.append(f"| {d} | {m['property']} | {first[:150]} | {m['existing_tests_with_change'][:40]} | {det} |")
 out = ["# Seeded changes", "",
        "Each directory `/verif/seeded/<id>-<A|B>/` holds `patch.diff` (relative to /repo HEAD " +
@@ -20,7 +22,7 @@ out = ["# Seeded changes", "",
        "without it) and then the listed checks were run against that worktree (`VERIF_REPO=<worktree> bin/check <id> quick`).", "",
        "| seed | property | change | existing tests with the change | detected by (quick) |", "|---|---|---|---|---|"] + rows
 n = len(rows)
-k = sum(1 for r in rows if "missed" not in r)
+k = ndet
 out += ["", f"{k} of {n} confirmed seeded changes are detected by the quick check of their own property (plus any other listed check)."]
 open("/verif/SEEDED.md", "w").write("\n".join(out) + "\n")
 print(f"{k}/{n} detected")
